@@ -506,19 +506,23 @@ Proof.
   intros H; inversion H; subst. split; [reflexivity|]. congruence.
 Qed.
 
+(* only metadata that arrived WITH the response is ever stored *)
+Lemma exec_store_carries ext cached cur r m :
+  exec_store ext cached cur r = Some m -> m_id m <> None /\ carries r m.
+Proof.
+  destruct r; simpl; try discriminate.
+  destruct (rb_meta b) as [n|nid cols] eqn:EM; [discriminate|].
+  destruct (used_meta ext cached b) as [u|e] eqn:E; [|discriminate].
+  intros H. apply handle_new_id_some in H. destruct H as [-> Hid]. split; [assumption|].
+  unfold used_meta in E. rewrite EM in E. destruct nid as [i|].
+  - destruct ext; inversion E; subst. right. exists b, i, cols. auto.
+  - inversion E; subst. simpl in Hid. congruence.
+Qed.
+
 Lemma exec_store_some ext cached cur r m :
   exec_store ext cached cur r = Some m ->
   m_id m <> None /\ (carries r m \/ cached = Some m).
-Proof.
-  destruct r; simpl; try discriminate.
-  destruct (used_meta ext cached b) as [u|e] eqn:E; [|discriminate].
-  intros H. apply handle_new_id_some in H. destruct H as [-> Hid]. split; [assumption|].
-  unfold used_meta in E. destruct (rb_meta b) as [n|nid cols] eqn:EM.
-  - destruct cached as [cm|]; inversion E; subst; [now right|]. simpl in Hid. congruence.
-  - destruct nid as [i|].
-    + destruct ext; inversion E; subst. left. right. exists b, i, cols. auto.
-    + inversion E; subst. simpl in Hid. congruence.
-Qed.
+Proof. intros H. destruct (exec_store_carries _ _ _ _ _ H). auto. Qed.
 
 (* where a store made by [call_recv] comes from *)
 Lemma recv_store ST ext cells cs r s u cs' oq :
@@ -2076,4 +2080,76 @@ Proof.
     destruct (g_par k ST ok s1 [] _) as [r|] eqn:E2; [|eapply IH; eassumption].
     inversion H; subst. destruct (pstep_run _ _ _ _ _ E) as [l1 H1]. destruct (IH _ _ _ _ E2) as [[l2 H2] HO].
     split; [|exact HO]. exists (l1 ++ l2). rewrite grun_app, H1. exact H2.
+Qed.
+
+(* ---------------------------------------------------------------------------------- *)
+(* after repo 75c6d7e: the cell only ever moves to metadata the server announced in the  *)
+(* response being processed — never back to a caller's snapshot — for every interleaving *)
+(* ---------------------------------------------------------------------------------- *)
+
+Lemma recv_store_carries ST ext cells cs r s u cs' oq :
+  call_recv ST ext cells cs r = Some (Some (s, u), cs', oq) -> m_id u <> None /\ carries r u.
+Proof.
+  intros H. destruct cs; simpl in H; try discriminate.
+  - destruct (resp_parse_fails _ _ r); [discriminate|].
+    assert (HS : option_map (fun m => (xa_stmt a, m)) (exec_store ext (cp_cached ext (xa_use_cached a) snap) (cells (xa_stmt a)) r) = Some (s, u))
+      by (destruct r; inversion H; reflexivity).
+    destruct (exec_store _ _ _ r) as [m|] eqn:ES; [|discriminate]. inversion HS; subst.
+    eapply exec_store_carries; eassumption.
+  - destruct r; try discriminate. destruct (negb _); [discriminate|]. inversion H; subst.
+    destruct (reprepare_update (cells (xa_stmt a)) m) as [m'|] eqn:RU; [|discriminate].
+    match goal with HH : option_map _ _ = Some _ |- _ => simpl in HH; inversion HH; subst end.
+    apply reprepare_update_some in RU. destruct RU as [-> Hid]. split; [assumption|left; eauto].
+  - destruct (resp_parse_fails _ _ r); [discriminate|]. inversion H; subst.
+    destruct (exec_store _ _ _ r) as [m|] eqn:ES; [|discriminate].
+    match goal with HH : option_map _ _ = Some _ |- _ => simpl in HH; inversion HH; subst end.
+    eapply exec_store_carries; eassumption.
+  - destruct r; try discriminate. destruct (find_prepared _ _ _); discriminate.
+  - destruct r; try discriminate. destruct (negb _); [discriminate|]. inversion H; subst.
+    destruct (reprepare_update (cells p) m) as [m'|] eqn:RU; [|discriminate].
+    match goal with HH : option_map _ _ = Some _ |- _ => simpl in HH; inversion HH; subst end.
+    apply reprepare_update_some in RU. destruct RU as [-> Hid]. split; [assumption|left; eauto].
+Qed.
+
+(* every change of a cell is the store of metadata carried, with an id, by the response just delivered *)
+Lemma store_announced ST st l st' s :
+  gstep ST st l = Some st' ->
+  (g_ann st' s = g_ann st s /\ g_cells st' s = g_cells st s) \/
+  exists c r m, l = GL_resp c r /\ carries r m /\ m_id m <> None /\
+                g_ann st' s = m :: g_ann st s /\ g_cells st' s = m.
+Proof.
+  intros Hs. destruct l as [c0 ext a|c0 ext b|c0 r|c0]; simpl in Hs.
+  - destruct (k_st (g_calls st c0)); try discriminate. inversion Hs; subst. now left.
+  - destruct (k_st (g_calls st c0)); try discriminate. inversion Hs; subst. now left.
+  - destruct (call_recv ST (k_ext (g_calls st c0)) (g_cells st) (k_st (g_calls st c0)) r)
+      as [[[sto cs] oq]|] eqn:E; [|discriminate].
+    destruct sto as [[s0 u]|]; simpl in Hs; inversion Hs; subst; simpl; [|now left].
+    destruct (recv_store_carries _ _ _ _ _ _ _ _ _ E) as [Hid Hc].
+    unfold upd. destruct (Nat.eqb s s0) eqn:EE; [|now left].
+    apply Nat.eqb_eq in EE. subst s0. right. exists c0, r, u. auto.
+  - destruct (call_tick _ _ _ _) as [[cs q]|]; [|discriminate]. inversion Hs; subst. now left.
+Qed.
+
+(* a Rows answer announcing a metadata id to an execute on a connection with the extension:
+   afterwards the cell holds that id, whatever happened concurrently *)
+Lemma cell_follows_rows ST st c st' a m b i cols :
+  gstep ST st (GL_resp c (RRows b)) = Some st' ->
+  k_st (g_calls st c) = CS_exec1 a m \/ k_st (g_calls st c) = CS_exec2 a m ->
+  k_ext (g_calls st c) = true -> rb_meta b = RM_full (Some i) cols ->
+  m_id (g_cells st' (xa_stmt a)) = Some i.
+Proof.
+  intros Hs Hst Hext HM. simpl in Hs. rewrite Hext in Hs.
+  assert (HR : call_recv ST true (g_cells st) (k_st (g_calls st c)) (RRows b) =
+               Some (option_map (fun u => (xa_stmt a, u))
+                       (handle_new_id (g_cells st (xa_stmt a)) (meta_of_cols (Some i) cols)),
+                     CS_done (O_rows (meta_of_cols (Some i) cols) (rb_paging b) (rb_nrows b) (rb_cells b)), None)).
+  { destruct Hst as [-> | ->]; simpl; unfold used_meta; rewrite HM; simpl; reflexivity. }
+  rewrite HR in Hs. clear HR.
+  destruct (handle_new_id (g_cells st (xa_stmt a)) (meta_of_cols (Some i) cols)) as [u|] eqn:EH;
+    simpl in Hs; inversion Hs; subst; simpl.
+  - rewrite upd_same. apply handle_new_id_some in EH. destruct EH as [-> _]. reflexivity.
+  - unfold handle_new_id in EH. simpl in EH.
+    destruct (obytes_eqb (Some i) (m_id (g_cells st (xa_stmt a)))) eqn:EU.
+    + apply obytes_eqb_eq in EU. now symmetry.
+    + unfold obytes_eqb in EU. rewrite EU in EH. simpl in EH. discriminate EH.
 Qed.
